@@ -1,6 +1,7 @@
 """Contracts for votekit/utils.py"""
 from pyvc.api import *
 from specs.base import *
+from specs.tiebreak import *
 from specs.stv import fp_sorted
 
 
@@ -19,19 +20,68 @@ class validate_score_vector:
         return vec_ok_prefix(score_vector, i + 1, len(score_vector))
 
 
-@contract("utils.py", "tiebreak_set", props=("C10",), assumed=True)
+@contract("utils.py", "borda_scores", props=(), assumed=True)
+class borda_assumed:
+    params = dict(profile=Profile, to_float=Bool)
+    returns = Dict(Real)
+    trusted = ("assumed contract: borda_scores (result named by the opaque spec function borda_of, keyed by the profile's candidates)",)
+
+    def result(profile):
+        return borda_of(profile)
+
+    def ensures(profile, result):
+        return frozenset(result.keys()) == frozenset(profile.candidates)
+
+
+@contract("utils.py", "tiebroken_ranking", props=(), assumed=True)
+class tiebroken_ranking_assumed:
+    """ASSUMED (slice stores into a pre-sized list and a dict keyed by frozensets are outside the subset; mutually recursive with
+    tiebreak_set -- assuming it in tiebreak_set's proof is the usual modular treatment of partial correctness): with the random
+    tiebreak the first component lists every candidate of the ranking exactly once, as single-candidate positions"""
+    params = dict(ranking=Seq(CSet), profile=Opt(Profile), tiebreak=Str)
+    returns = Tup(Seq(CSet), TBDictS)
+    trusted = ("assumed contract: tiebroken_ranking(ranking, profile, 'random')[0] is a sequence of single-candidate sets listing the ranking's candidates once each",)
+
+    def ensures(ranking, profile, tiebreak, result):
+        return implies(tiebreak == "random",
+                       singletons(result[0], len(result[0])) and len(result[0]) == count(ranking, len(ranking))
+                       and union_upto(result[0], len(result[0])) == union_upto(ranking, len(ranking)))
+
+
+@contract("utils.py", "tiebreak_set", props=("C10", "C01", "C17"), unfold=3)
 class tiebreak_set:
-    """ASSUMED callee contract of elect_cands_from_set_ranking (its body uses sorted / dict-of-lists / random.sample and
-    is outside the verifier's subset); checked only by the bounded tiers of C10/C17"""
+    """the result is a strict order (single-candidate positions) of exactly the given set -- also when the secondary tally
+    separates only some of the tied candidates (then the random fallback must run); ValueError iff the tiebreak code is unknown or
+    a score-based tiebreak has no profile.  Requires the tied candidates to be listed in the profile whose tallies break the tie.
+    The random permutation is random.sample's (A-LIB); score_dict_to_ranking / tiebroken_ranking are assumed callee contracts."""
     params = dict(r_set=CSet, profile=Opt(Profile), tiebreak=Str)
     returns = Seq(CSet)
-    trusted = ("assumed contract: tiebreak_set returns a strict order (sequence of singletons) of exactly the given set; ValueError iff unknown code or missing profile",)
+    locals = dict(tiebreak_scores=Dict(Real))
+    trusted = ("assumed clause: with tiebreak 'first_place' the resolution is ordered by first-place votes (opaque fp_sorted; checked by bounded/C10)",)
+
+    def requires(r_set, profile, tiebreak):
+        return implies(tiebreak != "random" and profile is not None, r_set <= frozenset(profile.candidates))
 
     def raises_ValueError(r_set, profile, tiebreak):
         return tiebreak != "random" and (profile is None or (tiebreak != "first_place" and tiebreak != "borda"))
 
     def ensures(r_set, profile, tiebreak, result):
-        return lin(result, r_set) and implies(tiebreak == "first_place" and profile is not None, fp_sorted(result, profile))
+        return lin(result, r_set)
+
+    def assumed_ensures(r_set, profile, tiebreak, result):
+        return implies(tiebreak == "first_place" and profile is not None, fp_sorted(result, profile))
+
+    def comp_0(_src):
+        return singl(_src, len(_src))
+
+    def hint_comp_0(_src):
+        return singl_lin(_src, len(_src)) and singl_len(_src, len(_src))
+
+    def comp_2(new_ranking):
+        return has_tie(new_ranking, len(new_ranking))
+
+    def hint_comp_2(new_ranking):
+        return le1_singletons(new_ranking, len(new_ranking)) and count_singletons_n(new_ranking, len(new_ranking))
 
 
 @contract("utils.py", "elect_cands_from_set_ranking", props=("C01", "C04", "C05", "C10", "C20"))
@@ -40,6 +90,14 @@ class elect_cands_from_set_ranking:
     params = dict(ranking=Seq(CSet), m=Int, profile=Opt(Profile), tiebreak=Opt(Str))
     returns = Tup(Seq(CSet), Seq(CSet), Opt(Tup(CSet, Seq(CSet))))
     locals = dict(elected=Seq(CSet, "list"))
+
+    def requires(ranking, m, profile, tiebreak):
+        # a tally-based tiebreak needs the tallies of the tied candidates: they are candidates of the profile it is given
+        return implies(tiebreak is not None and tiebreak != "random" and profile is not None,
+                       union_upto(ranking, len(ranking)) <= frozenset(profile.candidates))
+
+    def hint_body_0(ranking, i):
+        return union_member(ranking, len(ranking), i)
 
     def raises_ValueError(ranking, m, profile, tiebreak):
         return (m < 1 or m > count(ranking, len(ranking))
